@@ -280,3 +280,29 @@ func Verif_C14_state_update_leaves_the_size_alone() {
 	wk.cancel()
 	verifapi.Quiesce()
 }
+
+// Verif_C14_cleared_field_stays_cleared: writer B holds a long-lived copy of the record (with the
+// runner's extra data in it); writer A clears the extra data (as the command unit does when its runner
+// has exited); then B makes an ordinary update of state and detail through its long-lived copy, and a
+// reader that re-uses one object loads the record again. The cleared field stays cleared: B's re-read
+// under the lock replaces EVERYTHING B held, including fields that are now empty.
+func Verif_C14_cleared_field_stays_cleared() {
+	dir := verifapi.TempDir()
+	file := dir + "/status"
+	init := &StatusFileData{State: WorkStateRunning, Detail: "running", StdoutSize: 3, WorkType: "cmd", ExtraData: &CommandExtraData{Pid: 77, Params: "p"}}
+	verifapi.Assert("initial-save", init.Save(file) == nil)
+	b := &StatusFileData{ExtraData: &CommandExtraData{}}
+	reader := &StatusFileData{ExtraData: &CommandExtraData{}}
+	verifapi.Assert("b-loads", b.Load(file) == nil)
+	verifapi.Assert("reader-loads", reader.Load(file) == nil)
+	a := &StatusFileData{ExtraData: &CommandExtraData{}}
+	verifapi.Assert("a-clears", a.UpdateFullStatus(file, func(st *StatusFileData) { st.ExtraData = nil }) == nil)
+	verifapi.Assert("b-updates", b.UpdateFullStatus(file, func(st *StatusFileData) { st.State, st.Detail = WorkStateSucceeded, "exit 0" }) == nil)
+	verifapi.Assert("reader-reloads", reader.Load(file) == nil)
+	final := &StatusFileData{}
+	verifapi.Assert("final-load", final.Load(file) == nil)
+	verifapi.Cover("sequence-done")
+	verifapi.Assert("later-update-recorded", verifapi.All(final.State == WorkStateSucceeded, final.Detail == "exit 0", final.WorkType == "cmd"))
+	verifapi.Assert("cleared-field-stays-cleared-on-disk", final.ExtraData == nil)
+	verifapi.Assert("cleared-field-stays-cleared-for-a-reader-that-reuses-its-object", reader.ExtraData == nil)
+}
